@@ -95,9 +95,26 @@ func MinimizeFile(p runner.Prop, path string) int {
 		return 2
 	}
 	var h sim.History
-	if err := json.Unmarshal(doc["replay"], &h); err != nil {
+	// the replay is either a History or an object wrapping one under "h"
+	var wrapper map[string]json.RawMessage
+	wrapped := false
+	if err := json.Unmarshal(doc["replay"], &wrapper); err == nil && wrapper["h"] != nil {
+		wrapped = true
+		if err := json.Unmarshal(wrapper["h"], &h); err != nil {
+			fmt.Fprintln(os.Stderr, err)
+			return 2
+		}
+	} else if err := json.Unmarshal(doc["replay"], &h); err != nil {
 		fmt.Fprintln(os.Stderr, err)
 		return 2
+	}
+	encode := func(c sim.History) json.RawMessage {
+		raw, _ := json.Marshal(c)
+		if wrapped {
+			wrapper["h"] = raw
+			raw, _ = json.Marshal(wrapper)
+		}
+		return raw
 	}
 	var kind string
 	_ = json.Unmarshal(doc["kind"], &kind)
@@ -111,7 +128,7 @@ func MinimizeFile(p runner.Prop, path string) int {
 	defer wk.Close()
 	runs := 0
 	fails := func(c sim.History) bool {
-		raw, _ := json.Marshal(c)
+		raw := encode(c)
 		for try := 0; try < 2; try++ {
 			runs++
 			res := wk.Replay(raw)
@@ -128,7 +145,7 @@ func MinimizeFile(p runner.Prop, path string) int {
 		return 1
 	}
 	m := MinimizeHistory(h, fails)
-	raw, _ := json.Marshal(m)
+	raw := encode(m)
 	doc["replay"] = raw
 	out, _ := json.MarshalIndent(doc, "", " ")
 	outPath := path + ".min.json"
